@@ -138,6 +138,7 @@ def cycles(dobj, n=3):
     cur = dobj
     for k in range(n + 1):
         before = project.project(cur)
+        state0 = project.deep_state(cur)
         g_a = write(cur)
         write(other_definition())       # writing is a function of the definition written: another document in between changes nothing
         load_other_documents()          # ... and so does loading documents with other namespace conventions
@@ -146,6 +147,11 @@ def cycles(dobj, n=3):
             probs.append(f"two writes of the same definition differ (cycle {k})")
         if project.project(cur) != before:
             probs.append(f"writing altered the definition (cycle {k})")
+        else:
+            # ... nor anything else reachable from it through public attributes (derived fields the projection does not read)
+            state1 = project.deep_state(cur)
+            if state1 != state0:
+                probs.append(f"writing altered the definition object (cycle {k}): {project.state_diff(state0, state1)}"[:300])
         docs.append(g_a)
         if k == 0:
             try:
